@@ -156,6 +156,7 @@ type uriSpec struct {
 	useArgs                  bool
 	bytesAPI                 bool // the …Bytes setters
 	twice                    bool // every component was set to something else first
+	delArgs                  bool // the query argument is added and then deleted again
 }
 
 var reusedCookie protocol.Cookie
@@ -185,6 +186,10 @@ func uriRT(s uriSpec) string {
 			u.QueryArgs().Reset()
 		}
 		u.QueryArgs().Add(s.qk, s.qv)
+		if s.delArgs {
+			// the arguments are taken away again: the URI has no query any more
+			u.QueryArgs().Del(s.qk)
+		}
 	} else if s.bytesAPI {
 		u.SetQueryStringBytes([]byte(s.rawQuery))
 	} else {
@@ -226,7 +231,11 @@ func uriRT(s uriSpec) string {
 			n++
 			got = string(k) + "\x01" + string(val)
 		})
-		if !(s.qk == "" && s.qv == "") && (n != 1 || got != s.qk+"\x01"+s.qv) {
+		if s.delArgs {
+			if n != 0 || len(v.QueryString()) != 0 {
+				return fmt.Sprintf("the query argument was deleted again, yet the full form %q carries a query (%d args, %q)", full, n, v.QueryString())
+			}
+		} else if !(s.qk == "" && s.qv == "") && (n != 1 || got != s.qk+"\x01"+s.qv) {
 			return fmt.Sprintf("query argument (%q,%q) -> %d args %q (full %q)", s.qk, s.qv, n, got, full)
 		}
 	}
@@ -336,7 +345,7 @@ func work(w *mon.W) {
 		r := c.R
 		for it := 0; it < 500; it++ {
 			s := uriSpec{scheme: r.Str("http", "https"), host: r.Str("h", "h.com:80", "[::1]:8080", "H.Com", "[2001:db8::1]", "a-b.example:65535"), path: "/" + rs(r, 6, alphaR), hash: rs(r, 4, alphaR)}
-			s.bytesAPI, s.twice = r.Bool(), r.Chance(3)
+			s.bytesAPI, s.twice, s.delArgs = r.Bool(), r.Chance(3), r.Chance(5)
 			if r.Bool() {
 				s.useArgs = true
 				s.qk, s.qv = rs(r, 3, alphaR)+"k", rs(r, 4, alphaR)
@@ -374,6 +383,12 @@ func work(w *mon.W) {
 			var ck protocol.Cookie
 			ck.SetKey("k" + legal(rs(r, 3, alphaR)))
 			ck.SetValue(legal(rs(r, 6, alphaR)))
+			if r.Chance(8) {
+				ck.SetKey("") // a value without a name (the third example of RequestContext.SetCookie)
+				if len(ck.Value()) == 0 {
+					ck.SetValue("v") // (neither name nor value is not a cookie)
+				}
+			}
 			if r.Bool() {
 				ck.SetDomain(r.Str("d.com", ".example.org", "h"))
 			}
@@ -427,6 +442,28 @@ func work(w *mon.W) {
 				if e2 := reusedCookie.Parse(s); e2 != nil || reusedCookie.String() != d.String() {
 					c.Detail = func() interface{} { return map[string]interface{}{"family": "cookie", "cookie": s} }
 					c.Violate("cookie-reused-object", "a reused Cookie object parses %q differently from a fresh one: %q (err %v) vs %q", s, reusedCookie.String(), e2, d.String())
+					return
+				}
+			}
+			// and across a response header: set on one, parsed by another (what a client does)
+			if pv == nil && err == nil {
+				var h1, h2 protocol.ResponseHeader
+				h1.SetCookie(&ck)
+				var line []byte
+				h1.VisitAllCookie(func(k, v []byte) { line = append([]byte(nil), v...) })
+				h2.Set("Set-Cookie", string(line))
+				var d2 protocol.Cookie
+				d2.SetKeyBytes(ck.Key())
+				if !h2.Cookie(&d2) {
+					var names []string
+					h2.VisitAllCookie(func(k, v []byte) { names = append(names, string(k)) })
+					c.Detail = func() interface{} { return map[string]interface{}{"family": "cookie", "cookie": s} }
+					c.Violate("cookie-header-lookup", "cookie %q set on a response header is not found under its name %q by a header that parsed the line %q (names there: %q)", s, ck.Key(), line, names)
+					return
+				}
+				if d2.String() != d.String() {
+					c.Detail = func() interface{} { return map[string]interface{}{"family": "cookie", "cookie": s} }
+					c.Violate("cookie-header-lookup", "cookie %q read back through a response header as %q", s, d2.String())
 					return
 				}
 			}
